@@ -102,30 +102,38 @@ template <int F>
 class S {
 public:
   using N = typename NativeOf<F>::type;
+  // Node of the trace graph, or -1 for a literal that has not been entered into the graph yet. Literals
+  // are constructible in constant expressions (so that `constexpr NumericType c{...};` in the library
+  // compiles at the tracing type, as it does at `double`); they enter the graph when first used.
   int id;
   N v;
+  long double lit_ = 0.0L;
+  int litfmt_ = 0;
 
   S() : id(G().add(Node{Op::Uninit, F})), v(0) {}
-  S(const S&) = default;
-  S& operator=(const S&) = default;
+  constexpr S(const S&) = default;
+  constexpr S& operator=(const S&) = default;
 
   struct Raw {};
-  S(Raw, int id_, N v_) : id(id_), v(v_) {}
+  constexpr S(Raw, int id_, N v_) : id(id_), v(v_) {}
 
   // Literals. A literal keeps the format it had in the source; the conversion to this format is a
   // separate rounding step, recorded as a cast unless the formats coincide.
-  S(float x) : S(FromLit(static_cast<long double>(x), 32)) {}
-  S(double x) : S(FromLit(static_cast<long double>(x), 64)) {}
-  S(long double x) : S(FromLit(x, 80)) {}
-  S(int x) : S(FromLit(static_cast<long double>(x), 0)) {}
-  S(long x) : S(FromLit(static_cast<long double>(x), 0)) {}
-  S(long long x) : S(FromLit(static_cast<long double>(x), 0)) {}
-  S(unsigned x) : S(FromLit(static_cast<long double>(x), 0)) {}
-  S(unsigned long x) : S(FromLit(static_cast<long double>(x), 0)) {}
+  constexpr S(float x) : id(-1), v(static_cast<N>(x)), lit_(x), litfmt_(32) {}
+  constexpr S(double x) : id(-1), v(static_cast<N>(x)), lit_(x), litfmt_(64) {}
+  constexpr S(long double x) : id(-1), v(static_cast<N>(x)), lit_(x), litfmt_(80) {}
+  constexpr S(int x) : id(-1), v(static_cast<N>(x)), lit_(x), litfmt_(0) {}
+  constexpr S(long x) : id(-1), v(static_cast<N>(x)), lit_(x), litfmt_(0) {}
+  constexpr S(long long x) : id(-1), v(static_cast<N>(x)), lit_(x), litfmt_(0) {}
+  constexpr S(unsigned x) : id(-1), v(static_cast<N>(x)), lit_(x), litfmt_(0) {}
+  constexpr S(unsigned long x) : id(-1), v(static_cast<N>(x)), lit_(x), litfmt_(0) {}
+
+  /// The node of this value; a pending literal is entered into the graph now.
+  int nid() const { return id >= 0 ? id : FromLit(lit_, litfmt_); }
 
   // Conversion between formats (implicit, as between native floating-point types).
   template <int Gf, typename = std::enable_if_t<Gf != F>>
-  S(const S<Gf>& o) : id(G().add(Node{Op::Cast, F, o.id})), v(static_cast<N>(o.v)) {}
+  S(const S<Gf>& o) : id(G().add(Node{Op::Cast, F, o.nid()})), v(static_cast<N>(o.v)) {}
 
   static S In(N shadow) {
     Node n{Op::In, F};
@@ -146,7 +154,7 @@ public:
   explicit operator int() const { G().events.push_back("escape:int"); return static_cast<int>(v); }
   explicit operator bool() const { G().events.push_back("escape:bool"); return v != 0; }
 
-  S operator-() const { return S(Raw{}, G().add(Node{Op::Neg, F, id}), -v); }
+  S operator-() const { return S(Raw{}, G().add(Node{Op::Neg, F, nid()}), -v); }
   S operator+() const { return *this; }
 
   template <typename U> S& operator+=(const U& o) { *this = S(*this + o); return *this; }
@@ -155,7 +163,7 @@ public:
   template <typename U> S& operator/=(const U& o) { *this = S(*this / o); return *this; }
 
 private:
-  static S FromLit(long double x, int litfmt) {
+  static int FromLit(long double x, int litfmt) {
     if (litfmt == F || litfmt == 0) {
       Node n{Op::Lit, F};
       n.lit = static_cast<long double>(static_cast<N>(x));
@@ -163,13 +171,13 @@ private:
       if (litfmt == 0 && static_cast<long double>(static_cast<N>(x)) != x) {
         G().events.push_back("escape:inexact-int-literal");
       }
-      return S(Raw{}, G().add(n), static_cast<N>(x));
+      return G().add(n);
     }
     Node n{Op::Lit, litfmt};
     n.lit = x;
     n.litfmt = litfmt;
     const int lid = G().add(n);
-    return S(Raw{}, G().add(Node{Op::Cast, F, lid}), static_cast<N>(x));
+    return G().add(Node{Op::Cast, F, lid});
   }
 };
 
@@ -196,7 +204,7 @@ inline S<R> Widen(const S<A>& x) {
     constexpr int R = MaxF(A, B);                                                                  \
     const S<R> l = Widen<R>(x);                                                                    \
     const S<R> r = Widen<R>(y);                                                                    \
-    return S<R>(typename S<R>::Raw{}, G().add(Node{Op::OPNAME, R, l.id, r.id}), l.v SYMBOL r.v);   \
+    return S<R>(typename S<R>::Raw{}, G().add(Node{Op::OPNAME, R, l.nid(), r.nid()}), l.v SYMBOL r.v);   \
   }                                                                                                \
   template <int A, typename U, typename = std::enable_if_t<std::is_arithmetic<U>::value>>          \
   inline S<MaxF(A, FmtOf<U>::value)> operator SYMBOL(const S<A>& x, const U y) {                   \
@@ -222,7 +230,7 @@ SYM_BINOP(/, Div)
     const S<R> l = Widen<R>(x);                                                                    \
     const S<R> r = Widen<R>(y);                                                                    \
     const bool out = l.v SYMBOL r.v;                                                               \
-    G().path.push_back(Cmp{NAME, l.id, r.id, out});                                                \
+    G().path.push_back(Cmp{NAME, l.nid(), r.nid(), out});                                                \
     return out;                                                                                    \
   }                                                                                                \
   template <int A, typename U, typename = std::enable_if_t<std::is_arithmetic<U>::value>>          \
@@ -248,7 +256,7 @@ SYM_CMP(!=, "ne")
 #define SYM_UNARY(FN, OPNAME)                                                                      \
   template <int A>                                                                                 \
   inline S<A> FN(const S<A>& x) {                                                                  \
-    return S<A>(typename S<A>::Raw{}, G().add(Node{Op::OPNAME, A, x.id}), std::FN(x.v));           \
+    return S<A>(typename S<A>::Raw{}, G().add(Node{Op::OPNAME, A, x.nid()}), std::FN(x.v));           \
   }
 SYM_UNARY(sqrt, Sqrt)
 SYM_UNARY(abs, Abs)
@@ -292,7 +300,7 @@ inline S<MaxF(A, B)> pow(const S<A>& x, const S<B>& y) {
   constexpr int R = MaxF(A, B);
   const S<R> l = Widen<R>(x);
   const S<R> r = Widen<R>(y);
-  return S<R>(typename S<R>::Raw{}, G().add(Node{Op::Pow, R, l.id, r.id}), std::pow(l.v, r.v));
+  return S<R>(typename S<R>::Raw{}, G().add(Node{Op::Pow, R, l.nid(), r.nid()}), std::pow(l.v, r.v));
 }
 // std::pow(floating, integer): C++11 [c.math]: the integer is converted to double, so a float base is
 // computed in double. The exponent is kept as an integer literal in the trace.
@@ -300,7 +308,7 @@ template <int A, typename I, typename = std::enable_if_t<std::is_integral<I>::va
 inline S<MaxF(A, 64)> pow(const S<A>& x, const I n) {
   constexpr int R = MaxF(A, 64);
   const S<R> l = Widen<R>(x);
-  Node node{Op::Powi, R, l.id};
+  Node node{Op::Powi, R, l.nid()};
   node.n = static_cast<long long>(n);
   return S<R>(typename S<R>::Raw{}, G().add(node),
               std::pow(l.v, static_cast<typename S<R>::N>(n)));
@@ -323,7 +331,7 @@ template <int A> inline bool isfinite(const S<A>& x) { G().events.push_back("esc
 template <int A>
 inline std::ostream& operator<<(std::ostream& os, const S<A>& x) {
   G().events.push_back("escape:stream");
-  return os << "<<" << x.id << ">>";
+  return os << "<<" << x.nid() << ">>";
 }
 
 }  // namespace sym
@@ -335,7 +343,7 @@ template <int F> struct numeric_limits<sym::S<F>> : numeric_limits<typename sym:
 template <int F>
 struct hash<sym::S<F>> {
   size_t operator()(const sym::S<F>& x) const {
-    sym::G().events.push_back("hash:" + sym::Str(x.id));
+    sym::G().events.push_back("hash:" + sym::Str(x.nid()));
     return hash<typename sym::NativeOf<F>::type>()(x.v);
   }
 };
